@@ -16,7 +16,7 @@ READ with Python `ast` from lexer.py, parser.py, compiler.py, idtracking.py, nod
   dispatchShape  the tag dispatch of Parser.parse_statement in order (checked to be: keyword table -> getattr parse_<value>,
                 `call`, `filter`, extensions, fail_unknown_tag); anything else is untranslatable.
 
-No line numbers enter the data (they are in comments only), so unrelated edits do not change the file.
+No line numbers enter the file, so unrelated edits do not change it; `locate()` gives the line of a site for reports.
 """
 from __future__ import annotations
 
@@ -194,6 +194,16 @@ def collect():
                 failure_classes=failure_classes, keywords=kw, methods=methods, dispatch=dispatch)
 
 
+def locate(file, func, cls=None, idx=0):
+    """source line of a raise (cls given) or assert site, for violation messages"""
+    d = collect()
+    if cls is None:
+        rows = [r for r in d["asserts"] if r[0] == file and r[1] == func]
+        return rows[idx][2] if idx < len(rows) else None
+    rows = [r for r in d["raises"] if r[0] == file and r[1] == func and r[2] == cls]
+    return rows[idx][3] if idx < len(rows) else None
+
+
 def gen():
     d = collect()
     o = [HEADER, "", "namespace JinjaV.Gen.FailSites", "",
@@ -205,13 +215,13 @@ def gen():
     ords = _ordinals(d["raises"], lambda r: r[:3])
     rows = []
     for (f, q, c, ln), i in zip(d["raises"], ords):
-        rows.append(f"  -- {f}:{ln}\n  ⟨{lstr(f)}, {lstr(q)}, {lstr(c)}, {i}⟩")
+        rows.append(f"  ⟨{lstr(f)}, {lstr(q)}, {lstr(c)}, {i}⟩")
     o.append(",\n".join(rows) + "]")
     o += ["", "-- READ: every `assert` statement", "def assertSites : List AssertSite := ["]
     ords = _ordinals(d["asserts"], lambda r: r[:2])
     rows = []
     for (f, q, ln, t), i in zip(d["asserts"], ords):
-        rows.append(f"  -- {f}:{ln}  assert {t}\n  ⟨{lstr(f)}, {lstr(q)}, {i}⟩")
+        rows.append(f"  ⟨{lstr(f)}, {lstr(q)}, {i}⟩")
     o.append(",\n".join(rows) + "]")
     o += ["", "-- READ: the `exc` argument of every `.fail(...)` call that passes one",
           "def failExcArgs : List (String × String) := " + llist(f"({lstr(f)}, {lstr(c)})" for f, c, _ in d["fail_args"]),
